@@ -202,6 +202,7 @@ static void init_basis (
 
 static int opt_work ( EGLPNUM_TYPENAME_QSdata * p, int *status, int primal_or_dual),
   basis_arrays_check ( int nstruct, int nrows, const char *cstat, const char *rstat),
+  basis_rows_check ( EGLPNUM_TYPENAME_QSdata * p, const char *rstat),
   qsbasis_check ( QSbasis * qB),
   qsbasis_to_illbasis ( QSbasis * qB, EGLPNUM_TYPENAME_ILLlp_basis * B),
   illbasis_to_qsbasis ( EGLPNUM_TYPENAME_ILLlp_basis * B, QSbasis * qB),
@@ -1942,6 +1943,8 @@ EGLPNUM_TYPENAME_QSLIB_INTERFACE int EGLPNUM_TYPENAME_QSload_basis (
 	/* reject a malformed basis before the current one is released */
 	rval = qsbasis_check (B);
 	CHECKRVALG (rval, CLEANUP);
+	rval = basis_rows_check (p, B->rstat);
+	CHECKRVALG (rval, CLEANUP);
 
 	if (p->basis == 0)
 	{
@@ -1989,6 +1992,8 @@ EGLPNUM_TYPENAME_QSLIB_INTERFACE int EGLPNUM_TYPENAME_QSread_and_load_basis (
 		goto CLEANUP;
 	}
 	rval = basis_arrays_check (B.nstruct, B.nrows, B.cstat, B.rstat);
+	CHECKRVALG (rval, CLEANUP);
+	rval = basis_rows_check (p, B.rstat);
 	CHECKRVALG (rval, CLEANUP);
 
 	if (p->basis == 0)
@@ -2042,6 +2047,8 @@ EGLPNUM_TYPENAME_QSLIB_INTERFACE int EGLPNUM_TYPENAME_QSload_basis_array (
 
 	/* nothing of the problem is touched before the arrays have been accepted */
 	rval = basis_arrays_check (qslp->nstruct, qslp->nrows, cstat, rstat);
+	CHECKRVALG (rval, CLEANUP);
+	rval = basis_rows_check (p, rstat);
 	CHECKRVALG (rval, CLEANUP);
 
 	if (p->basis == 0)
@@ -2331,6 +2338,31 @@ static int basis_arrays_check (
 								nrows);
 		rval = 1;
 		ILL_CLEANUP;
+	}
+
+CLEANUP:
+
+	EG_RETURN (rval);
+}
+
+/* a row can be non-basic at its upper limit only if it has one: the status
+ * belongs to ranged rows (the basis loader of the simplex refuses it for any
+ * other sense, at every later solve) */
+static int basis_rows_check (
+	EGLPNUM_TYPENAME_QSdata * p,
+	const char *rstat)
+{
+	int rval = 0;
+	int i;
+
+	for (i = 0; i < p->qslp->nrows; i++)
+	{
+		if (rstat[i] == QS_ROW_BSTAT_UPPER && p->qslp->sense[i] != 'R')
+		{
+			QSlog("Received basis is not valid: row %d is not ranged and cannot be at its upper limit", i);
+			rval = 1;
+			ILL_CLEANUP;
+		}
 	}
 
 CLEANUP:
